@@ -63,6 +63,7 @@ def strategy(tier):
         st.fixed_dictionaries({'op': st.just('ev'), 'ns': nsi,
                                'name': st.sampled_from(['a', 'b', 'z']),
                                'id': st.sampled_from([0, 1, 2]),
+                               'bin0': st.booleans(),
                                'args': args, 'ret': ret}),
         # a (text or binary) event whose handler raises, then an ordinary
         # event: the second one must be handled and acknowledged as usual
@@ -273,8 +274,13 @@ def _run(case, h):
             rets[tag[0]] = op['ret']
             args = [{'__tag': tag[0]}] + list(op['args'])
             nlog = len(log)
-            for f in wire.frames(wire.EVENT, ns, op['id'],
-                                 [op['name']] + args):
+            frs = wire.frames(wire.EVENT, ns, op['id'], [op['name']] + args)
+            if op.get('bin0') and len(frs) == 1 and isinstance(
+                    frs[0], str) and frs[0][:1] == '2':
+                # a BINARY_EVENT that announces zero attachments
+                frs = ['50-' + frs[0][1:]]
+                labels['binary_event_without_attachments'] = True
+            for f in frs:
                 h.deliver(f)
             tgt = responsible(ns, op['name'])
             new = log[nlog:]
